@@ -89,6 +89,17 @@ theorem never_stored_get (env : Env) (n : Nat) (w : World) (q : Query) (raw : St
     (h : (evalQ env n w q raw extra input false).1.get k = some s) : w.dataAt k = some s :=
   (evalQ_plain_keeps env n w q raw extra input hq).get h
 
+/-- `nocache_chain_frame`: with `useCache = false` the evaluation of a link-free, `sub`-free query leaves the
+global cache literally unchanged — no data, no progress metadata, no removal; only the call log grows, by
+exactly the reference calls — and returns exactly the reference outcome (same fuel). -/
+theorem nocache_chain_frame (env : Env) (n : Nat) (w : World) (q : Query) (raw : Str) (extra : Extra)
+    (input : Option Val) (hq : q.plain = true) :
+    (evalQ env n w q raw extra input false).1 = { w with calls := w.calls ++ (refQ env n q raw extra input).2 } ∧
+    (evalQ env n w q raw extra input false).1.cache = w.cache ∧
+    (evalQ env n w q raw extra input false).2 = (refQ env n q raw extra input).1 := by
+  rw [evalQ_plain_nocache env n w q raw extra input hq]
+  exact ⟨rfl, rfl, rfl⟩
+
 /-- `store_metadata` never creates data -/
 theorem metadata_only (w : World) (k status k' : Str) (s : EState)
     (h : (w.storeMeta k status).dataAt k' = some s) : w.dataAt k' = some s :=
@@ -114,7 +125,7 @@ example :
     ((evalQ env0 9 {} qOneAdd (s "one/add-2") (.dict [(s "y", .int 5)]) none true).1.get (s "one/add-2") = none) ∧
     ((evalQ env0 9 {} qOneAdd (s "one/add-2") (.dict [(s "y", .int 5)]) none true).2.obs.map (·.volatile) = some true) ∧
     ((evalQ env0 9 {} qOneAdd (s "one/add-2") .none none true).1.get (s "one/add-2") ≠ none) ∧
-    ((evalQ env0 9 {} qOneAdd (s "one/add-2") .none (some (.int 5)) false).1.cache.all (fun e => e.2.st.isNone)) ∧
+    ((evalQ env0 9 {} qOneAdd (s "one/add-2") .none (some (.int 5)) false).1.cache = []) ∧
     qOneAdd.plain = true ∧ qOneAdd.hasStep = true ∧
     -- `one/boom`: fails at its last step; nothing retrievable under its key; the successful prefix is cached
     (evalQ env0 9 {} qOneBoom (s "one/boom") .none none true).2.obs.map (·.value) = some none ∧
@@ -125,4 +136,4 @@ example :
 
 end Liquer.C05
 
--- OBLIGATIONS: Liquer.C05.inst_registry Liquer.C05.served_is_fresh Liquer.C05.served_is_fresh_from Liquer.C05.never_data Liquer.C05.never_data_raised Liquer.C05.not_admitted Liquer.C05.extra_is_volatile Liquer.C05.never_stored Liquer.C05.never_stored_get Liquer.C05.metadata_only Liquer.C05.nocache_stays
+-- OBLIGATIONS: Liquer.C05.inst_registry Liquer.C05.served_is_fresh Liquer.C05.served_is_fresh_from Liquer.C05.never_data Liquer.C05.never_data_raised Liquer.C05.not_admitted Liquer.C05.extra_is_volatile Liquer.C05.never_stored Liquer.C05.never_stored_get Liquer.C05.nocache_chain_frame Liquer.C05.metadata_only Liquer.C05.nocache_stays
